@@ -39,6 +39,8 @@ claimed = {
          "sleep-point interleavings only (no instruction-level preemption: that is C37); direct writes to ctx.Conn() outside", "§0 C16"),
  "C17": ('the real ServeConn loop with a hijacking handler (GET, POST with a body, POST with Expect: 100-continue): the response is complete (or absent with HijackSetNoResponse) before the hijack handler runs, the handler reads exactly the ≤3/≤6 arbitrary trailing bytes in order whether they were buffered with the request, arrive later or are split, and the connection is closed after the handler unless KeepHijackedConns',
          "bounds as stated; 'server never touches the connection again' not decided", "§0 C17"),
+ "C18": ("the real HostClient connection pool under 2/3 concurrent Do calls on the engine's scheduler: with MaxConns ∈ {1,2}, MaxConnWaitTimeout on/off, failing dials and closing servers, and the calls interleaved at every yield of the scripted network and every blocking operation of the pool, there are never more than MaxConns live connections, no connection carries two requests at once, every call ends with a connection or a documented error within its wait timeout, and ConnsCount is idle+lent at rest and zero after CloseIdleConnections",
+         "bounded cooperative schedules, choices only; data races and the idle cleaner outside", "§0 C18"),
  "C19": ("the real HostClient.Do/DoTimeout retry loop and transport.RoundTrip against a scripted network: for every fault sequence (write error, EOF, read timeout, oversized response, dial error per dial), method, MaxIdemponentCallAttempts ∈ [-1,3]/[-1,6] (symbolic), RetryIf/RetryIfErr answers and per-attempt time consumption: transmissions ≤ the attempt limit, a non-idempotent request is sent once unless a callback allows more, body streams and oversized responses are never retried, and no transmission starts after the request timeout unless RetryIfErr reset it",
          "bounds as stated; RetryIfErrUpstream, MaxConnWaitTimeout, TLS and real sockets outside", "§0 C19"),
  "C20": ('the real redirect loop with a recording fake client that also serialises every hop: one redirect hop whose Location carries ≤2 arbitrary host-label bytes plus look-alike suffixes, ports, userinfo and scheme variants (thorough adds two-hop chains), GET or POST with a raw body or form arguments: credentials are never sent to a host that is neither a.co nor a dot-suffix subdomain, at most MaxRedirects hops, 303 becomes a body-less GET/HEAD on the wire, POST becomes GET on 301/302',
@@ -77,7 +79,6 @@ claimed = {
 
 na = {
  "C15": "not built: Shutdown needs a listener, Serve's accept loop and wall-clock polling; not brought up under the interpreter in this build",
- "C18": "not built: the inductive step over HostClient's pool operations needs a representation invariant for conns/connsWait/wantConn that was not written in this build",
  "C22": "codec internals (compress/flate, brotli, zstd) are loops over whole buffers that a bit-blasting back end cannot decide, and the abstraction of codecs as uninterpreted functions plus the stackless queue oracle was not built",
  "C35": "not built: multipart parsing (mime/multipart) and temp-file interception were not brought up under the interpreter",
  "C36": "the oracle is net/http's own server; differential behaviour of two full HTTP servers is outside bounded symbolic execution of this code",
